@@ -1,6 +1,7 @@
 import WellenModel.Model.Proto
 import WellenModel.Model.Offset
 import WellenModel.Model.Spec
+import WellenModel.Model.VcdBody
 /-
 `wmdriver`: reads one request per line on stdin, answers `<model reply>\t<spec reply>` per line.
 Imports only the import-free `Model` modules (the same definitions the theorems are about).
@@ -112,8 +113,189 @@ def handleStore (types ops : String) : String × String :=
     ((modelStore ts os).getD "panic", specStore ts os)
   | _, _ => ("bad-request", "-")
 
+/-! ### whole VCD bodies -/
+open Wellen.Bits Wellen.Store Wellen.Spec Wellen.VcdBody in
+def parseVars (s : String) : Option (List (List Nat × SigType)) :=
+  if s = "-" then some [] else
+  (s.splitOn ",").mapM fun v =>
+    match v.splitOn ":" with
+    | [id, t] => do
+      let idb ← hexBytes? id
+      let tp ← (if t = "r" then some SigType.real else if t = "s" then some SigType.string
+                else (t.drop 1).toString.toNat?.map SigType.bitvec)
+      some (idb, tp)
+    | _ => none
+
+def parseRealMap (s : String) : Option (List (List Nat × List Nat)) :=
+  if s = "-" then some [] else
+  (s.splitOn ",").mapM fun v =>
+    match v.splitOn "=" with
+    | [a, b] => do some (← hexBytes? a, ← hexBytes? b)
+    | _ => none
+
+open Wellen.VcdBody in
+def parseMode (s : String) (bodyLen : Nat) : Option Mode :=
+  match s.splitOn ":" with
+  | ["st"] => some .single
+  | ["stc"] => some .singleChecked
+  | ["rd"] => some (.reader (bodyLen + 1))
+  | ["mt", t, c] => do
+    let threads ← t.toNat?
+    let mc ← (if c = "prod" then some Wellen.Gen.minChunkSize else c.toNat?)
+    some (.multi threads mc)
+  | _ => none
+
+open Wellen.Bits Wellen.Store Wellen.Spec Wellen.VcdBody in
+def dumpVars (d : Decls) (r : Reader) (tt : List Nat) : Option String := do
+  let mut out := "tt=" ++ natListStr tt
+  for idx in d.varSig do
+    let tp := d.sigTypes.getD idx SigType.string
+    let l ← loadSignal r idx tp
+    out := out ++ "|" ++ (← showLoaded tp l)
+  some out
+
+open Wellen.Bits Wellen.Store Wellen.Spec Wellen.VcdBody in
+def modelVcd (mode : Mode) (d : Decls) (rm : RealMap) (body : List Nat) : String :=
+  match readValues driverCodec d rm body mode with
+  | .panic => "panic"
+  | .err => "err"
+  | .ok e =>
+    let (r, tt) := finish driverCodec e
+    (dumpVars d r tt).getD "panic"
+
+open Wellen.Bits Wellen.Store Wellen.Spec Wellen.VcdBody in
+/-- property-level meaning of a body: all tokens (also those on the line of `$enddefinitions`),
+`$dumpall` ignored like the other dump keywords, implicit time 0 before leading values -/
+def specVcd (d : Decls) (vars : List (List Nat × SigType)) (rm : RealMap) (body : List Nat) : String × String :=
+  let toksAll := (splitWs body).filter (· ≠ kwDumpall)
+  let out := interpT (endsWs body) .first toksAll []
+  -- findings: tokens on the first line (F5a), a `$dumpall` block after time 0 (F24)
+  let firstLineToks := splitWs (body.take (body.length - (dropLine body).length))
+  let hasDumpall := (splitWs body).contains kwDumpall
+  let fid := if !firstLineToks.isEmpty then "F5a" else if hasDumpall then "F24" else "-"
+  match out with
+  | .err _ => ("-", "-")
+  | .ok evs =>
+    -- aliases must agree on the type
+    let aliasOk := (d.varSig.zip (vars.map (·.2))).all fun (idx, tp) => d.sigTypes.getD idx SigType.string == tp
+    if !aliasOk || (!endsWs body) then ("-", "-") else
+    let ops? : Option (List Op) := evs.mapM fun e =>
+      match e with
+      | .time t => some (Op.time t)
+      | .value v id =>
+        match resolveId d id with
+        | some n => if d.varSig.contains n then some (Op.vcd n v (realOf rm v)) else none
+        | none => none
+    match ops? with
+    | none => ("-", "-")
+    | some ops =>
+      let ops := match ops with
+        | Op.time t :: r => Op.time t :: r
+        | [] => []
+        | r => Op.time 0 :: r
+      match Spec.run d.sigTypes ops with
+      | none => ("-", "-")
+      | some (tt, sigs) =>
+        ("tt=" ++ natListStr tt ++ String.join (d.varSig.map fun idx =>
+          let l := sigs.getD idx []
+          "|" ++ (if l.isEmpty then "-" else ",".intercalate (l.map fun (t, v) => s!"{t}={showSpecValue v}"))), fid)
+
+/-! ### truncation (C15) -/
+abbrev Dump := List Nat × List (List (Nat × String))
+
+def parseDump (d : String) : Option Dump :=
+  match d.splitOn "|" with
+  | [] => none
+  | tt :: sigs =>
+    if !tt.startsWith "tt=" then none else do
+    let ttl ← natList? (tt.drop 3).toString
+    let ss ← sigs.mapM fun p =>
+      if p = "-" then some [] else
+      (p.splitOn ",").mapM fun e =>
+        match e.splitOn "=" with
+        | [i, v] => i.toNat?.map fun n => (n, v)
+        | _ => none
+    some (ttl, ss)
+
+/-- the C15 relation between the truncated and the complete load (same algorithm as harness/src/cut.rs) -/
+def cutRelation (p f : Dump) (lb : Bool) : String :=
+  let (ptt, psig) := p
+  let (ftt, fsig) := f
+  if psig.length != fsig.length then "BAD:vars" else
+  let n := ptt.length
+  let keep := if lb then n else n - 1
+  if keep > ftt.length || ptt.take keep != ftt.take keep then "BAD:tt" else
+  let last := n - 1
+  let bad := (psig.zip fsig).findSome? fun (ps, fs) =>
+    let pb := ps.filter fun (i, _) => n > 0 && i < last
+    let fb := fs.filter fun (i, _) => n > 0 && i < last
+    if pb != fb then some "BAD:changes" else
+    if lb then
+      let pl := ps.filter fun (i, _) => i == last
+      let fl := fs.filter fun (i, _) => i == last
+      if pl.length > fl.length || pl != fl.take pl.length then some "BAD:last-step" else none
+    else none
+  bad.getD "ok"
+
+open Wellen.VcdBody in
+def handleCut (opts vars rmap body ks lbs : String) : String × String :=
+  match parseVars vars, parseRealMap rmap, hexBytes? body, ks.toNat? with
+  | some vs, some rm, some b, some k =>
+    match parseMode opts b.length, parseMode opts k with
+    | some modeF, some modeP =>
+      let d := mkDecls vs
+      let full := modelVcd modeF d rm b
+      match parseDump full with
+      | none => ("full-" ++ full, "-")
+      | some fd =>
+        let pr := modelVcd modeP d rm (b.take k)
+        let fmt := match modeF with
+          | .multi t c => !handoverSafe b t c || !handoverSafe (b.take k) t c
+          | _ => false
+        match parseDump pr with
+        | none => (pr, if pr = "err" then "err" else (if fmt then "ok\tFMT" else "ok\tF7"))
+        | some pd => (cutRelation pd fd (lbs = "1"), if fmt then "ok\tFMT" else "ok")
+    | _, _ => ("bad-request", "-")
+  | _, _, _, _ => ("bad-request", "-")
+
+open Wellen.VcdBody in
+/-- C14: the three ways `read_body` can be driven (mmap single, stream, mmap multi-threaded) -/
+def handleEntryVcd (vars rmap body : String) : String × String :=
+  match parseVars vars, parseRealMap rmap, hexBytes? body with
+  | some vs, some rm, some b =>
+    let d := mkDecls vs
+    let r1 := modelVcd .single d rm b
+    let r2 := modelVcd (.reader (b.length + 1)) d rm b
+    let r3 := modelVcd (.multi 4 Wellen.Gen.minChunkSize) d rm b
+    let cls := fun (r : String) => if r = "err" then "err" else if r = "panic" then "panic" else "ok"
+    let m := if r1 = r2 && r2 = r3 then "same:" ++ cls r1
+             else if cls r1 != "ok" && cls r1 = cls r2 && cls r2 = cls r3 then "same:" ++ cls r1
+             else "DIFF"
+    let fid := if !handoverSafe b 4 Wellen.Gen.minChunkSize then "FMT" else "-"
+    (m, (if cls r1 = "ok" then "same:ok" else "-") ++ "\t" ++ fid)
+  | _, _, _ => ("bad-request", "-")
+
+open Wellen.VcdBody in
+def handleVcd (opts vars rmap body : String) : String × String :=
+  match parseVars vars, parseRealMap rmap, hexBytes? body with
+  | some vs, some rm, some b =>
+    match parseMode opts b.length with
+    | some mode =>
+      let d := mkDecls vs
+      let (sp, fid) := specVcd d vs rm b
+      let fid := match mode with
+        | .multi t c => if fid = "-" && !handoverSafe b t c then "FMT" else fid
+        | _ => fid
+      (modelVcd mode d rm b, sp ++ "\t" ++ fid)
+    | none => ("bad-request", "-")
+  | _, _, _ => ("bad-request", "-")
+
 def handle (line : String) : String × String :=
   match splitSp line with
+  | ["vcd", opts, vars, rmap, body] => handleVcd opts vars rmap body
+  | ["entryvcd", vars, rmap, body] => handleEntryVcd vars rmap body
+  | ["entryfile", _] => ("same:ok", "same:ok")
+  | ["vcdcut", opts, vars, rmap, body, k, lb] => handleCut opts vars rmap body k lb
   | ["store", types, ops] => handleStore types ops
   | ["store", types, ops, _] => handleStore types ops
   | ["getoffset_full", idx, needle] =>
